@@ -6,7 +6,10 @@ use lsp_types::request::{PrepareRenameRequest, Rename};
 use lsp_types::{
     PrepareRenameResponse, RenameParams, TextDocumentPositionParams, TextEdit, WorkspaceEdit,
 };
-use mos_core::codegen::{DefinitionType, QueryTraversalStep};
+use lsp_types::Url;
+use mos_core::codegen::{
+    CodegenContext, Definition, DefinitionType, QueryTraversalStep, SymbolIndex,
+};
 use mos_core::parser::code_map::LineCol;
 use mos_core::parser::{Identifier, IdentifierPath};
 use std::collections::HashMap;
@@ -99,136 +102,163 @@ impl RequestHandler<Rename> for RenameHandler {
             None => return Ok(None),
         };
         let codegen = codegen.lock().unwrap();
-        let mut defs = ctx.find_definitions(codegen.analysis(), &params.text_document_position);
-        if defs.is_empty() {
-            return Ok(None);
-        }
-        let (def_ty, def) = defs.remove(0);
-        let (def_ty, def) = (def_ty.clone(), def.clone());
-        match def_ty {
-            DefinitionType::Filename(_) => Ok(None),
-            DefinitionType::Symbol(def_symbol_nx) => {
-                if let Some(location) = &def.location {
-                    let source_text = |span| {
-                        let sl = codegen.analysis().look_up(span);
-                        sl.file.source_slice(span).to_string()
-                    };
+        let defs = ctx.find_definitions(codegen.analysis(), &params.text_document_position);
 
-                    // The name the symbol goes by in the scope it was defined in. A symbol the assembler made up (the 'index' of
-                    // a loop, the '-' and '+' of a block) is not written down where it is defined, so there is nothing to rename.
-                    let old_name = codegen
-                        .symbols()
-                        .children(location.parent_scope)
-                        .into_iter()
-                        .find(|(_, nx)| *nx == def_symbol_nx)
-                        .map(|(id, _)| id);
-                    let old_name = match old_name {
-                        Some(id) if source_text(location.span) == id.as_str() => id,
-                        _ => return Ok(None),
-                    };
-
-                    // First, determine all the query steps for every usage
-                    let steps = def
-                        .usages()
-                        .into_iter()
-                        .map(|dl| {
-                            let sl = codegen.analysis().look_up(dl.span);
-                            let path = IdentifierPath::from(sl.file.source_slice(dl.span));
-                            (
-                                dl,
-                                (
-                                    codegen
-                                        .symbols()
-                                        .query_traversal_steps(dl.parent_scope, &path),
-                                    path,
-                                ),
-                            )
-                        })
-                        .collect::<HashMap<_, _>>();
-
-                    // Now, rename the actual symbol. This happens in a copy of the symbol table: the request only computes edits,
-                    // the analysis results must keep describing the buffers as they are until the client has applied them.
-                    let mut symbols = codegen.symbols().clone();
-                    symbols.rename(
-                        location.parent_scope,
-                        def_symbol_nx,
-                        Identifier::from(params.new_name.as_str()),
-                    );
-
-                    // And rename it across all other paths by which it may be reached
-                    // (other paths may exist due to imports)
-                    for (dl, (steps, _)) in steps.iter() {
-                        if let Some(QueryTraversalStep::Symbol(nx)) = steps.last() {
-                            symbols.rename(
-                                dl.parent_scope,
-                                *nx,
-                                Identifier::from(params.new_name.as_str()),
-                            );
-                        }
-                    }
-
-                    // And reconstruct the identifiers
-                    let new_paths = steps
-                        .into_iter()
-                        .filter_map(|(dl, (query_traversal_steps, old_path))| {
-                            let include_super = old_path.contains_super();
-                            symbols
-                                .query_steps_to_path(
-                                    dl.parent_scope,
-                                    &query_traversal_steps,
-                                    include_super,
-                                )
-                                .map(|path| (dl, path))
-                        })
-                        .collect::<HashMap<_, _>>();
-
-                    let changes = def
-                        .definition_and_usages()
-                        .into_iter()
-                        .filter_map(|dl| {
-                            let text = source_text(dl.span);
-                            if Identifier::from(text.as_str()).is_super() {
-                                // 'super' is a way to get at the symbol, not its name
-                                return None;
+        // A file that is imported more than once is assembled once per import: every import has its own copy of the
+        // symbols defined in that file, all of them written down at the same place. Renaming that place renames them all.
+        let written_at = match defs.first() {
+            Some((DefinitionType::Symbol(_), def)) => def.location.as_ref().map(|l| l.span),
+            _ => None,
+        };
+        let mut edits: Vec<(Url, TextEdit)> = vec![];
+        for (def_ty, def) in defs {
+            if let DefinitionType::Symbol(def_symbol_nx) = def_ty {
+                if written_at.is_some() && def.location.as_ref().map(|l| l.span) == written_at {
+                    match rename_edits(&codegen, *def_symbol_nx, def, &params.new_name) {
+                        Some(new_edits) => {
+                            for edit in new_edits {
+                                if !edits.contains(&edit) {
+                                    edits.push(edit);
+                                }
                             }
-                            // An import records the whole of 'name as alias': only the name is to be replaced
-                            let is_aliased = text
-                                .strip_prefix(old_name.as_str())
-                                .map(|rest| rest.starts_with(char::is_whitespace))
-                                .unwrap_or_default();
-                            let span = match is_aliased {
-                                true => dl.span.subspan(0, old_name.as_str().len() as u64),
-                                false => dl.span,
-                            };
-                            Some((dl, span, is_aliased))
-                        })
-                        .map(|(dl, span, is_aliased)| {
-                            let loc = to_location(codegen.analysis().look_up(span));
-
-                            // We either grab a renamed usage, or we fallback to the name specified by the user for the source definition
-                            let new_text = match new_paths.get(dl) {
-                                Some(new_path) if !is_aliased => new_path.to_string(),
-                                _ => params.new_name.clone(),
-                            };
-
-                            let edit = TextEdit {
-                                range: loc.range,
-                                new_text,
-                            };
-                            (loc.uri, edit)
-                        })
-                        .into_group_map();
-                    return Ok(Some(WorkspaceEdit {
-                        changes: Some(changes),
-                        document_changes: None,
-                        change_annotations: None,
-                    }));
+                        }
+                        None => return Ok(None),
+                    }
                 }
-
-                Ok(None)
             }
         }
+        if edits.is_empty() {
+            return Ok(None);
+        }
+        Ok(Some(WorkspaceEdit {
+            changes: Some(edits.into_iter().into_group_map()),
+            document_changes: None,
+            change_annotations: None,
+        }))
     }
+}
+
+/// The edits that rename a single symbol: its definition and all of its usages
+fn rename_edits(
+    codegen: &CodegenContext,
+    def_symbol_nx: SymbolIndex,
+    def: &Definition,
+    new_name: &str,
+) -> Option<Vec<(Url, TextEdit)>> {
+        if let Some(location) = &def.location {
+            let source_text = |span| {
+                let sl = codegen.analysis().look_up(span);
+                sl.file.source_slice(span).to_string()
+            };
+
+            // The name the symbol goes by in the scope it was defined in. A symbol the assembler made up (the 'index' of
+            // a loop, the '-' and '+' of a block) is not written down where it is defined, so there is nothing to rename.
+            let old_name = codegen
+                .symbols()
+                .children(location.parent_scope)
+                .into_iter()
+                .find(|(_, nx)| *nx == def_symbol_nx)
+                .map(|(id, _)| id);
+            let old_name = match old_name {
+                Some(id) if source_text(location.span) == id.as_str() => id,
+                _ => return None,
+            };
+
+            // First, determine all the query steps for every usage
+            let steps = def
+                .usages()
+                .into_iter()
+                .map(|dl| {
+                    let sl = codegen.analysis().look_up(dl.span);
+                    let path = IdentifierPath::from(sl.file.source_slice(dl.span));
+                    (
+                        dl,
+                        (
+                            codegen
+                                .symbols()
+                                .query_traversal_steps(dl.parent_scope, &path),
+                            path,
+                        ),
+                    )
+                })
+                .collect::<HashMap<_, _>>();
+
+            // Now, rename the actual symbol. This happens in a copy of the symbol table: the request only computes edits,
+            // the analysis results must keep describing the buffers as they are until the client has applied them.
+            let mut symbols = codegen.symbols().clone();
+            symbols.rename(
+                location.parent_scope,
+                def_symbol_nx,
+                Identifier::from(new_name),
+            );
+
+            // And rename it across all other paths by which it may be reached
+            // (other paths may exist due to imports)
+            for (dl, (steps, _)) in steps.iter() {
+                if let Some(QueryTraversalStep::Symbol(nx)) = steps.last() {
+                    symbols.rename(
+                        dl.parent_scope,
+                        *nx,
+                        Identifier::from(new_name),
+                    );
+                }
+            }
+
+            // And reconstruct the identifiers
+            let new_paths = steps
+                .into_iter()
+                .filter_map(|(dl, (query_traversal_steps, old_path))| {
+                    let include_super = old_path.contains_super();
+                    symbols
+                        .query_steps_to_path(
+                            dl.parent_scope,
+                            &query_traversal_steps,
+                            include_super,
+                        )
+                        .map(|path| (dl, path))
+                })
+                .collect::<HashMap<_, _>>();
+
+            let changes = def
+                .definition_and_usages()
+                .into_iter()
+                .filter_map(|dl| {
+                    let text = source_text(dl.span);
+                    if Identifier::from(text.as_str()).is_super() {
+                        // 'super' is a way to get at the symbol, not its name
+                        return None;
+                    }
+                    // An import records the whole of 'name as alias': only the name is to be replaced
+                    let is_aliased = text
+                        .strip_prefix(old_name.as_str())
+                        .map(|rest| rest.starts_with(char::is_whitespace))
+                        .unwrap_or_default();
+                    let span = match is_aliased {
+                        true => dl.span.subspan(0, old_name.as_str().len() as u64),
+                        false => dl.span,
+                    };
+                    Some((dl, span, is_aliased))
+                })
+                .map(|(dl, span, is_aliased)| {
+                    let loc = to_location(codegen.analysis().look_up(span));
+
+                    // We either grab a renamed usage, or we fallback to the name specified by the user for the source definition
+                    let new_text = match new_paths.get(dl) {
+                        Some(new_path) if !is_aliased => new_path.to_string(),
+                        _ => new_name.to_string(),
+                    };
+
+                    let edit = TextEdit {
+                        range: loc.range,
+                        new_text,
+                    };
+                    (loc.uri, edit)
+                })
+                .collect_vec();
+            return Some(changes);
+        }
+
+    None
 }
 
 #[cfg(test)]
